@@ -258,6 +258,7 @@ MUTANTS = [
     ('C16', 'lattice_layer.py', '            raise ValueError("Unknown custom lattice regularizer: %s" %\n                             (regularizer,))', '            raise ValueError("Unknown custom lattice regularizer: %s" %\n                             regularizer)', 'F0', 'tuple operand for one specifier'),
     ('C02', 'lattice_lib.py', '    lower_corner_coordinates = tf.maximum(lower_corner_coordinates, 0)\n', '', 'H4', 'corner floor removed'),
     ('C11', 'aggregation_layer.py', "    config = dict(config)\n", '', 'S12', 'from_config pops from the caller dict'),
+    ('C03', 'premade_lib.py', '                  feature_config.monotonicity, (list, tuple)) else None,', '                  feature_config.monotonicity, list) else None,', 'W6', 'tuple pairs not forwarded to the calibrator'),
     ('C17', 'premade_lib.py', '        # going out of bound on the lattice\n        addition_score = -2.0',
      '        # going out of bound on the lattice\n        addition_score = -1.0', 'W7', 'full lattice ties with a repeat'),
     ('C17', 'premade_lib.py', '        # going out of bound on the lattice\n        addition_score = -2.0',
